@@ -10,7 +10,7 @@ ROLES = ["idle", "owner", "subscriber", "caller", "routed-owner", "both", "unsen
 PHASES_RAW = ["between", "mid-prefix", "mid-message", "after-zero-length"]
 PHASES_WS = ["mid-request-line", "mid-headers", "after-101", "mid-ws-header", "mid-ws-payload", "mid-fragmented", "between"]
 ENDINGS_RAW = ["fin", "rst", "oversize", "bad-json", "non-object", "stray-response", "response-send-fails", "response-send-fails-buffer-full"]
-ENDINGS_WS = ["fin", "rst", "bad-json", "close-1000", "close-1001", "close-999", "close-1byte", "close-badutf8", "unmasked", "rsv", "bad-opcode", "oversize",
+ENDINGS_WS = ["fin", "rst", "bad-json", "close-1000", "close-1001", "close-999", "close-1byte", "close-badutf8", "unmasked", "unmasked-empty", "unmasked-empty-control", "rsv", "bad-opcode", "oversize",
               "response-send-fails", "pong-send-fails", "pong-send-fails-buffer-full"]
 
 
@@ -155,6 +155,10 @@ def connend(case, res):
             V.ledger = False
         elif ending == "unmasked":
             S.send_bytes(V, wire.ws_frame(1, body_, mask=None))
+        elif ending == "unmasked-empty":
+            S.send_bytes(V, wire.ws_frame(rng.choice([1, 2]), b"", mask=None, lenenc=rng.choice([7, 16])))
+        elif ending == "unmasked-empty-control":
+            S.send_bytes(V, wire.ws_frame(rng.choice([8, 9, 10]), b"", mask=None))
         elif ending == "rsv":
             S.send_bytes(V, wire.ws_frame(1, body_, rsv=4))
         elif ending == "bad-opcode":
